@@ -4,6 +4,7 @@ package main
 
 import (
 	"fmt"
+	"go/parser"
 	"go/printer"
 	"sort"
 	"go/ast"
@@ -14,9 +15,20 @@ import (
 )
 
 func (fx *FuncExec) execBlock(st *State, list []ast.Stmt) *State {
-	for _, s := range list {
+	for idx, s := range list {
 		if st == nil {
 			return nil
+		}
+		if ifs, ok := s.(*ast.IfStmt); ok && fx.contract != nil && fx.contract.SplitPaths && fx.loopDepth == 0 && len(fx.loops) == 0 && idx+1 < len(list) {
+			// follow each branch to the end of the block separately (no merge)
+			fx.curPos = ifs.Pos()
+			var ends []*State
+			for _, o := range fx.execIfBranches(st, ifs) {
+				if o != nil {
+					ends = append(ends, fx.execBlock(o, list[idx+1:]))
+				}
+			}
+			return fx.mergeStates(ends)
 		}
 		if fx.contract != nil && len(fx.contract.After) > 0 {
 			fx.ghostAfter(st, s, true)
@@ -56,6 +68,27 @@ func (fx *FuncExec) ghostAfter(st *State, s ast.Stmt, before bool) {
 			st.assume(g)
 			continue
 		}
+		if dot := strings.LastIndex(ac.Var, "."); dot > 0 {
+			// ghost field assignment: base.field = expr
+			pos := s.End()
+			if before {
+				pos = s.Pos()
+			}
+			env := fx.specEnv(st, fx.entry, pos, "ghost assignment")
+			be, err := parser.ParseExpr(ac.Var[:dot])
+			if err != nil {
+				panic(specError{"after: bad ghost field target " + ac.Var})
+			}
+			base := env.tr(be)
+			si := fx.reg.structs[base.Sort]
+			if si == nil || si.Comp[ac.Var[dot+1:]] == "" {
+				panic(specError{"after: unknown ghost field " + ac.Var})
+			}
+			comp := si.Comp[ac.Var[dot+1:]]
+			v := env.tr(ac.Expr)
+			fx.setH(st, comp, store(fx.H(st, comp), base.S, v.S))
+			continue
+		}
 		comp, ok := fx.reg.ghostVars[ac.Var]
 		if !ok {
 			panic(specError{"after: unknown ghost variable " + ac.Var})
@@ -74,6 +107,7 @@ func (fx *FuncExec) ghostAfter(st *State, s ast.Stmt, before bool) {
 }
 
 func (fx *FuncExec) exec(st *State, s ast.Stmt) *State {
+	fx.curPos = s.Pos()
 	switch s := s.(type) {
 	case *ast.BlockStmt:
 		return fx.execBlock(st, s.List)
@@ -255,6 +289,29 @@ func (fx *FuncExec) setResult(st *State, i int, key string, val Term) {
 		return
 	}
 	st.vars[key] = val.S
+}
+
+// execIfBranches executes an if statement and returns the end states of its branches unmerged.
+func (fx *FuncExec) execIfBranches(st *State, s *ast.IfStmt) []*State {
+	if s.Init != nil {
+		st = fx.exec(st, s.Init)
+		if st == nil {
+			return nil
+		}
+	}
+	c := fx.evalCond(st, s.Cond)
+	thenSt := st.clone()
+	thenSt.assume(c)
+	elseSt := st
+	elseSt.assume(not(c))
+	t := fx.execBlock(thenSt, s.Body.List)
+	var e *State
+	if s.Else != nil {
+		e = fx.exec(elseSt, s.Else)
+	} else {
+		e = elseSt
+	}
+	return []*State{t, e}
 }
 
 func (fx *FuncExec) execIf(st *State, s *ast.IfStmt) *State {
@@ -572,6 +629,15 @@ func (fx *FuncExec) modifiedIn(nodes ...ast.Node) (locals map[*types.Var]bool, c
 			}
 			if comp, ok := fx.reg.ghostVars[ac.Var]; ok {
 				comps[comp] = true
+			}
+			if dot := strings.LastIndex(ac.Var, "."); dot > 0 {
+				for _, si := range fx.reg.structs {
+					for _, gf := range si.GhostF {
+						if gf == ac.Var[dot+1:] {
+							comps[si.Comp[gf]] = true
+						}
+					}
+				}
 			}
 		}
 	}
@@ -895,13 +961,16 @@ func (fx *FuncExec) execRange(st *State, s *ast.RangeStmt) *State {
 			fx.defineOrAssign(bodySt, valVar, ev, s.Tok == token.DEFINE)
 		}
 		// the index the body is working on stays available as idxN; increment happens at the back edge
-		end := fx.execBlock(bodySt, s.Body.List)
+		fx.runBodySplit(lc, bodySt, func(b *State) {
+			lc.continues = nil
+			end := fx.execBlock(b, s.Body.List)
+			back := fx.mergeStates(append([]*State{end}, lc.continues...))
+			if back != nil {
+				back.vars[idxKey] = "(+ " + i + " 1)"
+			}
+			fx.loopBack(back, ls, s.Pos(), bodyPos, head)
+		})
 		fx.loops = fx.loops[:len(fx.loops)-1]
-		back := fx.mergeStates(append([]*State{end}, lc.continues...))
-		if back != nil {
-			back.vars[idxKey] = "(+ " + i + " 1)"
-		}
-		fx.loopBack(back, ls, s.Pos(), bodyPos, head)
 		return fx.mergeStates(append([]*State{exitSt}, lc.breaks...))
 	}
 	fx.unsupported(s.Pos(), "range over %s", xt)
@@ -918,4 +987,77 @@ func (fx *FuncExec) defineOrAssign(st *State, v *types.Var, val Term, define boo
 		return
 	}
 	fx.storeVar(st, v, val)
+}
+
+// splitSignal aborts the execution of a loop body when a closed-world
+// dispatch is met: the body is then re-executed once per candidate literal
+// (path splitting instead of a merged disjunction).
+type splitSignal struct{ n int }
+
+func (fx *FuncExec) runBodySplit(lc *loopCtx, bodySt *State, run func(b *State)) {
+	snapObls := len(fx.obls)
+	snapCnt := map[string]int{}
+	for k, v := range fx.counters {
+		snapCnt[k] = v
+	}
+	snapRets := len(fx.rets)
+	snapLoopOrd := fx.loopOrd
+	snapBreaks := len(lc.breaks)
+	snapLoops := len(fx.loops)
+	var snapUsed []bool
+	if fx.contract != nil {
+		for _, ac := range fx.contract.After {
+			snapUsed = append(snapUsed, ac.Used)
+		}
+	}
+	n := 0
+	func() {
+		defer func() {
+			if r := recover(); r != nil {
+				if sig, ok := r.(splitSignal); ok {
+					n = sig.n
+					return
+				}
+				panic(r)
+			}
+		}()
+		fx.loopDepth++
+		defer func() { fx.loopDepth-- }()
+		run(bodySt.clone())
+	}()
+	if n == 0 {
+		return
+	}
+	restore := func() {
+		fx.counters = map[string]int{}
+		for k, v := range snapCnt {
+			fx.counters[k] = v
+		}
+		fx.loopOrd = snapLoopOrd
+		fx.loops = fx.loops[:snapLoops]
+		if fx.contract != nil {
+			for i, ac := range fx.contract.After {
+				ac.Used = snapUsed[i]
+			}
+		}
+	}
+	fx.obls = fx.obls[:snapObls]
+	fx.rets = fx.rets[:snapRets]
+	lc.breaks = lc.breaks[:snapBreaks]
+	maxCnt := map[string]int{}
+	for k := 0; k < n; k++ {
+		restore()
+		fx.forced = k
+		fx.loopDepth++
+		run(bodySt.clone())
+		fx.loopDepth--
+		fx.forced = -1
+		fx.suffix = ""
+		for key, v := range fx.counters {
+			if v > maxCnt[key] {
+				maxCnt[key] = v
+			}
+		}
+	}
+	fx.counters = maxCnt
 }
